@@ -5,12 +5,64 @@ ENGINES = {
     'streamsim': {'sources': ['streamsim.c']},
     'mtsim': {'sources': ['mtsim.c'], 'plain_sources': ['mtwrap.c'],
               'wraps': ['pthread_mutex_init', 'pthread_mutex_lock', 'pthread_mutex_unlock', 'pthread_mutex_destroy', 'atexit']},
+    'protosim': {'sources': ['protosim.c', 'channel.c', 'proto_bake.c', 'proto_sm.c', 'proto_cvc.c'], 'common_sources': ['b2util.c']},
     'faultcall': {'sources': ['faultcall.c', 'fc_belt.c', 'fc_misc.c', 'fc_bign.c', 'fc_proto.c'], 'common_sources': ['b2util.c']},
 }
 
 REAL_ALL = ['all of /repo/src compiled from the current working tree with -DBEE2_VERIF']
 
 CHECKS = {
+    'C04': {
+        'level': 'exploration',
+        'legs': [
+            {'engine': 'protosim', 'config': 'asan', 'variant': 'bake', 'runs': [20000, 2000000]},
+            {'engine': 'protosim', 'config': 'asan32', 'variant': 'bake', 'runs': [4000, 400000]},
+        ],
+        'sigs_per_leg': True,
+        'rule': ('a case is one simulated session of BMQV, BSTS, BPACE or BAUTH between two party tasks that share only the simulated channel, followed by a '
+                 'fault-free recovery session with the same long-term keys: protocol x l in {128,192,256} x confirmation flags x driver per side (library RunA/RunB or a '
+                 'step-by-step host) x hello strings (absent, empty, 1..100 octets) x certificate length (incl. |M2|/|M3| above one 512-octet chunk and exact multiples of 512) x '
+                 'generator tapes (uniform / first draws 0 or FF.. forcing rejection sampling) x 0..2 channel faults attached to a message (single/multi octet substitution, '
+                 'bad-point substitution, truncate, extend, drop, duplicate, replay from the previous session, short reads, read/write errors, stall) x inconsistent configuration '
+                 '(different passwords, private key not matching the certificate, different hello, wrong peer certificate); distinct = distinct (protocol, l, flags, drivers, mismatch, '
+                 'fault kinds x messages, who accepted) tuples; every session is non-trivial (two parties exchange >= 2 messages)'),
+        'real': REAL_ALL,
+        'stub': ['the transport between the parties (simulated message channel behind the library\'s read_i/write_i)', 'both parties\' generators (seeded tapes)', 'certificate validation callback (prefix || public key, as in the repository\'s own test)'],
+        'assumptions': [
+            'reference channel = the repository test channel\'s read semantics made blocking (DESIGN.md C04); everything else read_i permits is a fault kind',
+            'a party accepts iff all its steps including StepG returned ERR_OK',
+            'tampered oracle: never both accept with equal keys; with any confirmation flag set, not both accept',
+            'fragmented delivery counts as honest only where the reader reassembles (BSTS M2/M3 in the Run drivers, every message in the step hosts)',
+            'MAC forgery / hash collision probabilities (2^-64) are ignored',
+        ],
+        'mandatory_probes': {'any': ['probe.honest_sessions', 'probe.tampered_sessions', 'probe.bsts_multiblock_path', 'probe.rejection_sampled', 'probe.read_timed_out', 'fault.corrupt1', 'fault.point_subst', 'fault.replay', 'fault.fragment']},
+    },
+    'C17': {
+        'level': 'exploration',
+        'legs': [
+            {'engine': 'protosim', 'config': 'asan', 'variant': 'sm', 'runs': [150000, 15000000]},
+            {'engine': 'protosim', 'config': 'asan', 'variant': 'cvc', 'runs': [2500, 300000]},
+            {'engine': 'protosim', 'config': 'asan', 'variant': 'pki', 'runs': [600, 60000]},
+            {'engine': 'protosim', 'config': 'asan32', 'variant': 'sm', 'runs': [50000, 5000000]},
+            {'engine': 'protosim', 'config': 'asan32', 'variant': 'cvc', 'runs': [800, 100000]},
+        ],
+        'sigs_per_leg': True,
+        'rule': ('three sub-simulations. sm: a terminal/card dialogue of 1..6 command/response exchanges over a faulty transport (CDF 0..300 across the 255/256 switch points, '
+                 'Le absent/short/extended, counters pre-advanced to just below a carry; substitution, truncation, extension, drop+retry, missing/double CtrInc); '
+                 'cvc: a chain root -> CA -> terminal of depth 1..3 over key lengths 24/32/48/64 with random names, validity windows and access words, deliberately invalid issuances, '
+                 'then validations on a simulated calendar (boundaries, outside the window, jumps, impossible dates), stored-certificate bit flips and wrong issuers; '
+                 'pki: password containers (iter 10000) under bit flips, truncation and wrong passwords. distinct = distinct (message shape, fault kinds) / (level, key length, violation) / '
+                 '(kind, key length, fault) tuples'),
+        'real': REAL_ALL,
+        'stub': ['APDU transport between terminal and card', 'the verifier\'s calendar (dates are arguments of btokCVCVal)', 'certificate/container storage (bit flips, truncation)', 'key generation tapes'],
+        'assumptions': [
+            'SM: out-of-step with equal parity is unspecified (the MAC does not cover the counter) and only checked for memory safety',
+            'ground-truth predicates for issuance/validation are assembled from the conditions listed in btok.h only',
+            'a single flipped bit anywhere in a stored certificate or container must make validation/unwrapping fail (forgery probability 2^-64 ignored)',
+            'the hidden global RNG is absent (rngIsValid() false), so CVC signing is deterministic',
+        ],
+        'mandatory_probes': {'any': ['probe.sm_instep_roundtrip', 'probe.sm_altered_checked', 'probe.sm_wrong_parity_refused', 'probe.cvc_parse_back', 'fault.cvc_clock_outside_validity', 'fault.cvc_stored_bit_flip', 'probe.pki_intact_roundtrip', 'fault.pki_wrong_password']},
+    },
     'C18': {
         'level': 'exploration',
         'legs': [
@@ -71,6 +123,7 @@ CHECKS = {
             {'engine': 'faultcall', 'config': 'asan', 'variant': 'badarg', 'runs': [2500, 100000]},
             {'engine': 'faultcall', 'config': 'asan32', 'variant': 'alloc', 'runs': [0, 50000]},
             {'engine': 'faultcall', 'config': 'asan32', 'variant': 'badarg', 'runs': [0, 30000]},
+            {'engine': 'protosim', 'config': 'asan', 'variant': 'bakealloc', 'runs': [600, 60000]},
         ],
         'sigs_per_leg': True,
         'rule': ('alloc leg: a case is one generated valid call of one high-level function; its N allocations are measured in a fault-free run, then the '
@@ -157,7 +210,6 @@ NOT_APPLICABLE = {
     'C01': 'belt mechanisms vs. the standard: ' + NA_PURE,
     'C02': 'bign soundness/completeness: ' + NA_PURE + '; needs an independent reference implementation, not a simulator',
     'C03': 'bash/brng/botp vs. the standards: sequential pure code; command histories are arguments, not interleavings (DESIGN.md §4)',
-    'C04': 'not yet built in this tree (protosim engine pending)',
     'C05': 'arithmetic layer: ' + NA_PURE,
     'C06': 'EC group law: ' + NA_PURE,
     'C08': 'decoder totality over all byte strings is input enumeration (fuzzing/BMC territory), nothing to schedule or fault',
@@ -166,11 +218,25 @@ NOT_APPLICABLE = {
     'C13': 'belsShare/belsRecover are single-shot pure functions; subset and order are arguments',
     'C14': 'control-flow independence of machine code is invisible to a simulator that observes API effects; needs binary-level analysis',
     'C16': 'sign/verify/DH round trips: ' + NA_PURE,
-    'C17': 'not yet built in this tree (protosim engine pending)',
     'C19': 'equality of differently built binaries on equal inputs has no nondeterminism to control (cross-build digests are used only as a determinism gate)',
 }
 
 MANIFEST_TEXT = {
+    'C04': {
+        'text': ('Seeded search over two-party sessions of the real bake/BAUTH code: both parties run as simulated tasks (library Run drivers or step hosts) that share only '
+                 'a simulated channel on which message faults are injected; honest sessions must agree, tampered sessions must never agree (and must fail at a confirming party), '
+                 'lost messages must end in an error rather than a hang, and a fault-free session afterwards must succeed. Evidence, not proof.'),
+        'design_ref': 'DESIGN.md §3 C04',
+        'note': 'Trusted: the channel model and the per-protocol message flow in sim/protosim/proto_bake.c (transcribed from bake.h/btok.h). Known finding: BSTS Run drivers with |M2| or |M3| = 0 mod 512.',
+        'technique': 'deterministic simulation: two party tasks over a simulated lossy/corrupting channel with agreement and tamper oracles',
+    },
+    'C17': {
+        'text': ('Seeded search over token-layer histories: SM command/response dialogues under transport faults with ground-truth counters, CV-certificate chains '
+                 'issued and validated under a simulated calendar and storage faults against a predicate assembled from btok.h, and password containers under storage corruption.'),
+        'design_ref': 'DESIGN.md §3 C17',
+        'note': 'Trusted: the ground-truth predicates in sim/protosim/proto_sm.c and proto_cvc.c.',
+        'technique': 'deterministic simulation: terminal/card dialogue, simulated calendar and storage faults with ground-truth oracles',
+    },
     'C18': {
         'text': ('Seeded schedule search over fibers parked at every synchronisation point of the real mt.c/rng.c/util.c; ThreadSanitizer (fiber API, '
                  'non-synchronising switches) as the happens-before oracle; linearizability decided by replaying the same operations sequentially '
